@@ -58,8 +58,16 @@ class StubDriver:
         self.steps = steps
         self.stats = stats if stats is not None else {}
         self.trace = []          # (x, f) in evaluation order
+        self.success = True      # the contract promises neither value
 
     def _run(self, fun, x0, lo, hi):
+        if x0 is None:
+            # no starting point handed over (scipy's population-based
+            # drivers then build their population without it): start from
+            # the middle of the box
+            x0 = np.where(np.isfinite(lo) & np.isfinite(hi),
+                          0.5 * (lo + hi), 0.0)
+            self.stats['stub_no_x0'] = self.stats.get('stub_no_x0', 0) + 1
         x0 = np.array(x0, dtype=float)
         n = len(x0)
         steps = np.array((list(self.steps) + [1e-3] * n)[:n], dtype=float)
@@ -72,6 +80,9 @@ class StubDriver:
             return f
         ev(x0)
         for kind, arg in self.plan:
+            if kind == 'flag':
+                self.success = arg != 'fail'
+                continue
             if kind == 'repeat':
                 ev(xs[arg % len(xs)][0])
                 continue
@@ -106,8 +117,9 @@ class StubDriver:
                  tol=None, **kw):
         lo, hi = _bounds_arrays(bounds, len(x0))
         x, f, nfev = self._run(fun, x0, lo, hi)
-        return OptimizeResult(x=x, fun=f, success=True, nfev=nfev, nit=nfev,
-                              status=0, message='stub driver')
+        return OptimizeResult(x=x, fun=f, success=self.success, nfev=nfev,
+                              nit=nfev, status=0 if self.success else 2,
+                              message='stub driver')
 
     def least_squares(self, fun, x0, bounds=(-np.inf, np.inf), **kw):
         n = len(x0)
@@ -115,7 +127,8 @@ class StubDriver:
         hi = np.broadcast_to(np.array(bounds[1], dtype=float), (n,)).copy()
         x, f, nfev = self._run(fun, x0, lo, hi)
         return OptimizeResult(x=x, fun=np.atleast_1d(f), cost=0.5 * f * f,
-                              success=True, nfev=nfev, status=1,
+                              success=self.success, nfev=nfev,
+                              status=1 if self.success else 0,
                               message='stub driver')
 
     def dual_annealing(self, fun, bounds, x0=None, maxiter=None, **kw):
